@@ -25,7 +25,7 @@ CONFIGS_T = CONFIGS_Q + [(1, "random", "none"), (3, "default", "line"), (16, "ra
 
 
 def gen_cases(tier, seed):
-    n = 1200 if tier == "quick" else 30000
+    n = 1200 if tier == "quick" else 6000
     maxcalls = 25 if tier == "quick" else 60
     out = []
     for i in range(n):
